@@ -56,8 +56,9 @@ Record DistInv : Prop := mkDist
   { h1 : forall j, In j ready -> dz d j <= mu;
     h2 : forall j, (j < n)%nat -> ~ In j ready -> mu <= dz d j;
     h3 : forall j c, In (j, Fin c) (row rows r) -> dz d j <= rcz c j;
+    (* a row popped last may be only partially scanned when the loop exits from inside its scan; then d[jh] = umin *)
     h4 : forall jh j c ch, In jh ready -> In (j, Fin c) (row rows (getn y jh n)) -> In (jh, Fin ch) (row rows (getn y jh n)) ->
-           dz d j <= dz d jh + rcz c j - rcz ch jh;
+           dz d jh = mu \/ dz d j <= dz d jh + rcz c j - rcz ch jh;
     h5 : forall j, In j ready \/ j = j1 ->
            (getn pred j n = r /\ exists c, In (j, Fin c) (row rows r) /\ dz d j = rcz c j) \/
            (exists jh c ch, In jh ready /\ getn pred j n = getn y jh n /\
@@ -66,6 +67,18 @@ Record DistInv : Prop := mkDist
     h6 : dz d j1 = mu /\ ~ In j1 ready }.
 
 Hypothesis Rfin : forall i j c, In (j, c) (row rows i) -> (j < n)%nat /\ exists z, c = Fin z.
+Hypothesis Rnodup : forall i, NoDup (map fst (row rows i)).
+
+Lemma row_cost_unique i j c1 c2 : In (j, c1) (row rows i) -> In (j, c2) (row rows i) -> c1 = c2.
+Proof.
+  intros H1 H2. pose proof (Rnodup i) as ND. induction (row rows i) as [|[a b] l IH]; [destruct H1|].
+  cbn [map fst] in ND. inversion ND as [|? ? Nin ND']; subst.
+  destruct H1 as [E1|H1], H2 as [E2|H2].
+  - congruence.
+  - inversion E1; subst. exfalso. apply Nin. apply (in_map fst) in H2. exact H2.
+  - inversion E2; subst. exfalso. apply Nin. apply (in_map fst) in H1. exact H1.
+  - auto.
+Qed.
 
 Theorem aug_price_slack x' y' :
   Inv n rows x y v -> (r < n)%nat -> DistInv ->
@@ -90,10 +103,15 @@ Proof.
   assert (Tree : forall jh ch j' c', In jh ready -> In (jh, Fin ch) (row rows (getn y jh n)) ->
             In (j', Fin c') (row rows (getn y jh n)) -> rcz ch jh - dz d jh + mu <= c' - vz v' j').
   { intros jh ch j' c' Hjh Hch Hc'. destruct (Rfin _ _ _ Hc') as [Hj' _].
-    specialize (H4 jh j' c' ch Hjh Hc' Hch).
-    destruct (in_dec Nat.eq_dec j' ready) as [Hin|Hnin].
-    - rewrite (proj1 (RC j' c') Hin). lia.
-    - rewrite (proj2 (RC j' c') Hnin). specialize (H2 j' Hj' Hnin). lia. }
+    destruct (H4 jh j' c' ch Hjh Hc' Hch) as [Emu|H4'].
+    - (* partially scanned row: its column keeps its price, old Slack suffices *)
+      destruct (HR jh Hjh) as [Hjhn [_ Ny]].
+      destruct (SL jh _ Hjhn eq_refl Ny) as [_ [_ [c0 [Hc0 Hmin]]]].
+      assert (c0 = ch) by (assert (Fin c0 = Fin ch) by (eapply row_cost_unique; eauto); congruence). subst c0.
+      specialize (Hmin j' c' Hc'). pose proof (Up j' c'). unfold rcz in *. lia.
+    - destruct (in_dec Nat.eq_dec j' ready) as [Hin|Hnin].
+      + rewrite (proj1 (RC j' c') Hin). lia.
+      + rewrite (proj2 (RC j' c') Hnin). specialize (H2 j' Hj' Hnin). lia. }
   assert (Root : forall j' c', In (j', Fin c') (row rows r) -> mu <= c' - vz v' j').
   { intros j' c' Hc'. destruct (Rfin _ _ _ Hc') as [Hj' _]. specialize (H3 j' c' Hc').
     destruct (in_dec Nat.eq_dec j' ready) as [Hin|Hnin].
